@@ -532,3 +532,29 @@ Theorem C02_route_option_to_resolution : forall root ps pi sp d,
     t_virtual_root d = fst root /\ t_virtual_root_path d = [] /\ t_root d = fst root.
 Proof. exact route_option_to_resolution. Qed.
 Print Assumptions C02_route_option_to_resolution.
+
+(* ---- third proof-only round (Proofs/C02_e2e_str.v): a str-valued `traverse` entry *)
+Require Import Verif.Proofs.C02_e2e_str.
+
+(* a match dictionary whose `traverse` entry is a str (no virtual root): the regenerated traverser walks the
+   normalised text and every field, `traversed` included, is the outcome of that walk *)
+Theorem C02_md_str_resolves : forall root s pi sp d,
+  gen_call root (mkReq pi (Some (mkMd (Some (MStr s)) sp)) None) = Ok d ->
+  exists ctx consumed rest,
+    walk_outcome root (gen_split_path_info s) ctx consumed rest /\
+    t_context d = fst ctx /\ t_view_name d = view_name_of rest /\ t_traversed d = consumed /\
+    t_virtual_root d = fst root /\ t_virtual_root_path d = [] /\ t_root d = fst root.
+Proof. exact md_str_resolves. Qed.
+Print Assumptions C02_md_str_resolves.
+
+(* route match -> match dictionary -> traversal for a {traverse} placeholder (the k-th piece of the decoded PATH_INFO):
+   the piece contains no '/', wins over any traverse= option, and its normalisation is what is walked *)
+Theorem C02_route_str_to_resolution : forall root decoded k opt pi sp d,
+  gen_call root (mkReq pi (Some (mkMd (traverse_entry (Some (MStr (route_piece decoded k))) opt) sp)) None) = Ok d ->
+  ~ In slash (route_piece decoded k) /\
+  exists ctx consumed rest,
+    walk_outcome root (gen_split_path_info (route_piece decoded k)) ctx consumed rest /\
+    t_context d = fst ctx /\ t_view_name d = view_name_of rest /\ t_traversed d = consumed /\
+    t_virtual_root d = fst root /\ t_virtual_root_path d = [] /\ t_root d = fst root.
+Proof. exact route_str_to_resolution. Qed.
+Print Assumptions C02_route_str_to_resolution.
